@@ -249,14 +249,14 @@ def rule_first_last(R):
     f = R.f
     call, hb, hcode = roles.handshake(f)
     R.touch(hcode)
-    ios = [c for c in hcode.calls.values() if c.bb in hcode.reachable and f.call_does_io(c)]
-    conn = [c for c in ios if any("Connect" in g and "packets::" in g for g in c.gargs)]
-    R.ob("first/connect-write", len(conn) == 1, "the handshake writes exactly one CONNECT (found %d)" % len(conn),
+    cwr = roles.connect_write(f)
+    ios = cwr["ios"]
+    R.ob("first/connect-write", cwr["count"] == 1 and bool(cwr["calls"]), "the handshake writes exactly one CONNECT (found %d)" % cwr["count"],
          where=hb.span)
-    if len(conn) == 1:
-        cw = conn[0]
-        conts, _ = ops.cont_edges(hcode, cw)
-        others = [c for c in ios if c.bb != cw.bb]
+    if cwr["count"] == 1 and cwr["calls"]:
+        conts = cwr["conts"]
+        mine = set(c.bb for c in cwr["calls"])
+        others = [c for c in ios if c.bb not in mine]
         bad = None
         for o in others:
             ok, _ = hcode.must_pass([0], [o.bb], via_edges=conts)
@@ -264,7 +264,7 @@ def rule_first_last(R):
                 bad = o
         R.ob("first/connect-first", bad is None and bool(conts),
              "every other transport access of the handshake is dominated by the successful write of CONNECT%s"
-             % ("" if bad is None else "; `%s` is not" % bad.path), where=(bad.span if bad else cw.span))
+             % ("" if bad is None else "; `%s` is not" % bad.path), where=(bad.span if bad else cwr["span"]))
     _, ccode = roles.session_connect(f)
     pre = [c for c in ccode.calls.values() if c.bb in ccode.reachable and f.call_does_io(c) and c.bb != call.bb
            and not ccode.must_pass([0], [c.bb], via_blocks=[call.bb])[0]]
